@@ -176,6 +176,8 @@ static void *pool_realloc(void *ctx, void *ptr, size_t len)
 	}
 
 	olen = seg->seg_pos - p;
+	/* keep seg_pos aligned, as pool_alloc() does */
+	len = CUSTOM_ALIGN(len, pool->align);
 	if (seg->seg_pos - olen + len <= seg->seg_end) {
 		seg->seg_pos = p + len;
 		return p;
